@@ -12,14 +12,15 @@ Require Import Bebop.front.LexInv Bebop.front.ParseInv Bebop.front.FmtInv Bebop.
 From Coq Require Import List.
 
 Definition C16_partial_statement : Prop :=
-  (* for EVERY input text, accepted or not: Format does not panic *)
-  (forall input, format input <> PPanic) /\
+  (* for EVERY input text, accepted or not: Format does not panic, and does not return an error (it has none of its own:
+     format.go's only error is the writer's) - it yields a text, unless it runs out of fuel *)
+  (forall input, format input <> PPanic) /\ (forall input, format input <> PErr) /\
   (* the four texts that used to be mangled are formatted into accepted texts denoting the same schema *)
   holds16 w_typed_enum /\ holds16 w_array2 /\ holds16 w_import /\ holds16 w_flags.
 
 Theorem C16_partial : C16_partial_statement.
 Proof.
-  split; [exact format_never_panics|]. split; [exact typed_enum_16|]. split; [exact array2_16|]. split; [exact import_16|exact flags_16].
+  split; [exact format_never_panics|]. split; [exact format_never_errs|]. split; [exact typed_enum_16|]. split; [exact array2_16|]. split; [exact import_16|exact flags_16].
 Qed.
 Print Assumptions C16_partial.
 
